@@ -337,31 +337,72 @@ func ServerCheck(sc sim.Scenario, h *sim.History, opt ServerOptions) []Problem {
 					}
 				}
 			}
+			if os.Getenv("VERIF_DEBUG") != "" {
+				for _, r := range cands {
+					exp, invs := expFor(r)
+					fmt.Printf("cand wire %d rec %d pass=%v why=%v\n", w.seq, r.idx, c.pass[r], MatchReplies("x", exp, [][]byte{w.data}, invs))
+				}
+			}
 			ws = append(ws, w)
 			cs = append(cs, c)
 		}
 		pending = nil
 		assign := make([]*record, len(ws))
 		taken := map[*record]bool{}
-		var search func(i int, strict bool) bool
-		search = func(i int, strict bool) bool {
+		// Among the assignments under which every message is a correct reply of a
+		// record that had arrived before it was sent, take one that leaves the
+		// fewest records unanswered that definitely expect a reply, have started and
+		// have no handler running, and answers the fewest that have not started (so that a record with a loose expectation
+		// does not take the reply a definite one is waiting for).
+		st := startedUpTo()
+		definite := func(r *record) bool { return (!r.queued || expectsReply(r)) && recDone(r) && r.idx < st }
+		open := 0
+		for _, r := range cur() {
+			if !hasReply(r) && definite(r) {
+				open++
+			}
+		}
+		lower := open - len(ws)
+		if lower < 0 {
+			lower = 0
+		}
+		best, bestCost, nodes := []*record(nil), -1, 0
+		var search func(i int)
+		search = func(i int) {
+			if nodes++; nodes > 50000 || bestCost == lower {
+				return
+			}
 			if i == len(ws) {
-				return true
+				cost := 0
+				for _, r := range cur() {
+					if !hasReply(r) && !taken[r] && definite(r) {
+						cost++
+					}
+					if taken[r] && r.idx >= st {
+						cost++ // answered although an earlier notification still holds the barrier
+					}
+				}
+				if bestCost < 0 || cost < bestCost {
+					best, bestCost = append([]*record(nil), assign...), cost
+				}
+				return
 			}
 			for _, r := range cs[i].recs {
-				if taken[r] || (strict && !cs[i].pass[r]) {
+				if taken[r] || !cs[i].pass[r] || r.sentSeq > ws[i].seq {
 					continue
 				}
 				taken[r] = true
 				assign[i] = r
-				if search(i+1, strict) {
-					return true
-				}
+				search(i + 1)
 				taken[r] = false
 			}
-			return false
 		}
-		if len(ws) > 12 || !search(0, true) {
+		if len(ws) <= 12 {
+			search(0)
+		}
+		if best != nil {
+			copy(assign, best)
+		} else {
 			// greedy fallback
 			taken = map[*record]bool{}
 			for i := range ws {
